@@ -22,5 +22,37 @@ NOTES = [
     "resolve() may raise only through Score.parse on a score outside the +N/-N/N% grammar (hypothesis of "
     "c01_resolve_never_raises; such scores are outside C01's quantifier and are probed separately in C03)",
 ]
+
+
+def other_resolvers(rng, tier, broken, info):
+    """full.resolve / sectional.resolve (both in C01's anchors) against simple and the statement."""
+    from common import Failure
+    out, seen = [], set()
+    n = 250 if tier == "quick" else 8000
+    if broken:
+        n *= 3
+    for _ in range(n):
+        case = rc.gen_case(rng)
+        if not rc.in_c01_domain(case):
+            continue
+        info["evaluations"] += 1
+        info["other_resolver_cases"] = info.get("other_resolver_cases", 0) + 1
+        v = rc.oracle_other_resolvers(case)
+        if v is not None:
+            import json
+            k = json.dumps(v[0], sort_keys=True)
+            if k in seen:
+                continue
+            seen.add(k)
+            small = rc.shrink(case, lambda c: (lambda w: w is not None and w[0] == v[0])(rc.oracle_other_resolvers(c)))
+            w = rc.oracle_other_resolvers(small) or v
+            out.append(Failure(v[0], w[1], {"case": small, "stream": "other-resolvers"}))
+            if len(out) >= 3:
+                break
+    return out
+
+
+NOTES.append("pedal.resolvers.full and pedal.resolvers.sectional reuse merge/finalize; they are not separate Lean "
+             "models but are checked on every run against simple.resolve and the statement (search stream)")
 if __name__ == "__main__":
-    sys.exit(rk.make("C01", rc.oracle_c01, THEOREMS, model_notes=NOTES)())
+    sys.exit(rk.make("C01", rc.oracle_c01, THEOREMS, model_notes=NOTES, extra_streams=[other_resolvers])())
